@@ -22,9 +22,9 @@ from ..acc import Acc
 ID = "C04"
 LEVEL = "exploration"
 TECHNIQUE = "bounded-exhaustive enumeration of MapSpec pipelines x persisting storages x load histories, observed in the writing interpreter and in a fresh interpreter started after the writer (and its managers) exited"
-RULE = ("G-MAP pipelines (all 1-function pipelines; 2-function pipelines with a single-output first function whose second function consumes only `a`; thorough: every 2-function pipeline) x storage "
+RULE = ("G-MAP pipelines (all 1-function pipelines; 2-function pipelines with a single-output first function whose second function consumes only `a`; thorough: every 2-function pipeline whose second function consumes `a` alone or `a` and its sibling `b`) x storage "
         "{file_array, dict+persist, shared_memory_dict+persist, per-output mix} x load history = a de Bruijn sequence over {load_outputs(all), RunInfo.load, load_xarray_dataset} "
-        "in which every entry point follows every other one (quick: ORXO in the writer and again in the fresh interpreter; thorough: a de Bruijn sequence with every ordered triple), executed first in the writing process and then again in a fresh interpreter. "
+        "in which every entry point follows every other one (quick: ORXO in the writer and again in the fresh interpreter; thorough: a de Bruijn sequence with every ordered pair), executed first in the writing process and then again in a fresh interpreter. "
         "non-trivial = distinct (pipeline shape, storage assignment) with a mapped axis, observed in the fresh interpreter")
 ASSUMPTIONS = ["the fresh interpreter is a child process started after the writer process has exited (all manager processes of the run are gone)",
                "xarray observations are compared between processes and with the run's values; what the dataset must look like is C19's business",
@@ -256,8 +256,11 @@ def run_batch(cases, seq):
 # ------------------------------------------------------------------------------------------------
 def specs_for(tier):
     for s in gen_map.pipelines(2, "quick"):
-        if len(s["funcs"]) == 1 or tier == "thorough" or (len(s["funcs"][1]["params"]) == 1 and len(s["funcs"][0]["outs"]) == 1):
+        g = s["funcs"][1]["params"] if len(s["funcs"]) == 2 else None
+        if g is None or (len(g) == 1 and len(s["funcs"][0]["outs"]) == 1):
             yield s
+        elif tier == "thorough" and (len(g) == 1 or g[1] == "b"):
+            yield s  # thorough: every consumer of `a` alone or of `a` and its sibling `b`
 
 
 def plan(tier, seed):
@@ -271,14 +274,14 @@ def run_unit(unit):
     _, tier, c, n = unit
     acc = Acc()
     # quick: every entry point after every other one at least once (ORXO…); thorough: every ordered triple
-    seq = "ORXO" if tier == "quick" else de_bruijn("ORX", 3)
+    seq = "ORXO" if tier == "quick" else de_bruijn("ORX", 2)
     cases, keys = [], []
     for k, spec in enumerate(specs_for(tier)):
         if k % n != c:
             continue
         sts = storages_for(spec)
-        if tier == "quick" and len(spec["funcs"]) == 2:
-            sts = [sts[3]]  # quick bound for 2-function pipelines: the file_array + shared_memory_dict mix
+        if len(spec["funcs"]) == 2:
+            sts = [sts[3]] if tier == "quick" else [sts[0], sts[3]]  # quick bound for 2-function pipelines: the file_array + shared_memory_dict mix
         for st in sts:
             cases.append({"spec": spec, "storage": st})
             keys.append((gen_map.key(spec), str(st)) if gen_map.nontrivial(spec) else None)
